@@ -333,6 +333,37 @@ def gen_pairs(ctx):
         tgt = mk_area(r, pick_kind(r, tlat), tlon, tlat, tspan, tshape)
         chunks = [r.choice([1, 2, 3, 5, 8, 13, 40]), r.choice([1, 2, 3, 5, 8, 13, 40])]
         add("swath", src, tgt, ("thin_" if thin else "") + "swath_" + rel, chunks=chunks)
+
+    # swaths chunked along BOTH dimensions with a target oblique to the chunk grid: polar stereographic source and target
+    # whose central meridians differ by 30..60 degrees, so the target is a diamond / an oblique strip on the swath and
+    # the chunks it hits form a diamond or a staircase (first / last hit chunk do not bound the others)
+    def ragged(n):
+        k = r.randint(3, 7)
+        cuts = sorted(r.sample(range(1, n), k - 1))
+        return [b - a for a, b in zip([0] + cuts, cuts + [n])]
+    for i in range(ctx.n(14, 140)):
+        north = r.random() < 0.7
+        lat = (1 if north else -1) * r.uniform(66, 84)
+        lon = r.uniform(-180, 180)
+        kind = "stere_n" if north else "stere_s"
+        n_r, n_c = (120, 120) if i % 3 == 0 else (r.choice([60, 90, 120]), r.choice([60, 90, 120]))
+        sspan = r.choice([1.2e6, 2.4e6])
+        src = mk_area(r, kind, lon, lat, sspan, (n_r, n_c))
+        rot = r.choice([-1, 1]) * r.uniform(30, 60)
+        tproj = crs_of(kind, lon + rot, lat)
+        cx, cy = _proj_centre(tproj, lon + r.uniform(-1, 1), lat + r.uniform(-0.5, 0.5))
+        long_half = sspan * r.uniform(0.28, 0.42)
+        short_half = long_half * r.choice([1.0, 1.0, 0.5, 0.25, 0.12])
+        hx, hy = (long_half, short_half) if r.random() < 0.5 else (short_half, long_half)
+        th, tw = r.randint(6, 20), r.randint(6, 20)
+        tgt = {"proj": tproj, "shape": [th, tw], "extent": [cx - hx, cy - hy, cx + hx, cy + hy], "kind": kind}
+        if i % 3 == 0:
+            chunks = [20, 20]
+        elif i % 3 == 1:
+            chunks = [r.choice([10, 15, 20, 30]), r.choice([10, 15, 20, 30])]
+        else:
+            chunks = [ragged(n_r), ragged(n_c)]
+        add("swath", src, tgt, "swath_oblique", chunks=chunks)
     return cases
 
 
@@ -389,6 +420,8 @@ def failure_key(clause, api, case, cols):
         return "C11.H_poly.gas.different_crs"
     if wraps_source_crs(case, cols):
         return "C11.H_poly.%s.target_wraps_source_crs_antimeridian" % api
+    if api == "swath" and clause == "cover" and case.get("cls") == "swath_oblique":
+        return "C11.cover.swath.oblique_chunks"
     g = geos_outline_lossy(case)
     if g and api == "slicer":
         return "C11.H_poly.slicer.%s" % g
@@ -710,7 +743,9 @@ def judge_scalar(c, res):
 def run(ctx):
     ctx.rule = ("seeded pairs of areas: CRS pool (laea, stere N/S, longlat, merc, eqc, ortho, lcc, geos full/partial disk) x scenes x "
                 "relation (inside, partial, corner, contains, disjoint) x target thickness ((1,n),(n,1),(1,1) in ~22%), polar "
-                "high-curvature pairs, dyadic same-CRS pairs with exact ties, flipped extents, chunked dask swath sources; scalar "
+                "high-curvature pairs, dyadic same-CRS pairs with exact ties, flipped extents, chunked dask swath sources incl. "
+                "60..120-pixel swaths chunked along both dimensions (20x20, other uniform, ragged) under targets turned by 30..60 "
+                "degrees (diamond / staircase of hit chunks); scalar "
                 "streams for the kernels. A pair is non-trivial when at least one target pixel centre falls on the source grid "
                 "(so that the cover / non-overlap clauses say something); a scalar case when a clipping, tie, infinite or "
                 "reversed branch is taken; distinct = distinct inputs")
